@@ -45,7 +45,40 @@ fn with_park<R>(f: impl FnOnce(&mut Park) -> R) -> R {
     f(g.as_mut().unwrap())
 }
 
+/// busy writer (`bw.start <hold ms>` / `bw.stop`): a thread that issues sets back to back and sits `hold` ms inside each
+/// of them, between the append and the index publish, i.e. while it holds the writer lock
+static BW_HOLD_MS: AtomicU64 = AtomicU64::new(0);
+static BW_STOP: AtomicBool = AtomicBool::new(false);
+static BW_PUTS: AtomicU64 = AtomicU64::new(0);
+
+pub fn bw_start(h: Handle, hold_ms: u64) -> std::thread::JoinHandle<()> {
+    BW_HOLD_MS.store(hold_ms, Ordering::SeqCst);
+    BW_STOP.store(false, Ordering::SeqCst);
+    BW_PUTS.store(0, Ordering::SeqCst);
+    std::thread::spawn(move || {
+        TNAME.with(|n| *n.borrow_mut() = Some("BW".to_string()));
+        let mut i = 0u64;
+        while !BW_STOP.load(Ordering::SeqCst) {
+            let _ = catch_unwind(AssertUnwindSafe(|| h.set(Bytes::from_static(b"bw"), Bytes::from(i.to_be_bytes().to_vec()))));
+            i += 1;
+            BW_PUTS.store(i, Ordering::SeqCst);
+        }
+    })
+}
+
+pub fn bw_stop() -> u64 {
+    BW_STOP.store(true, Ordering::SeqCst);
+    BW_HOLD_MS.store(0, Ordering::SeqCst);
+    BW_PUTS.load(Ordering::SeqCst)
+}
+
 fn hit(point: &str) {
+    if point == "put.before_publish" {
+        let hold = BW_HOLD_MS.load(Ordering::SeqCst);
+        if hold > 0 && TNAME.with(|t| t.borrow().as_deref() == Some("BW")) {
+            std::thread::sleep(Duration::from_millis(hold));
+        }
+    }
     // harness worker threads carry an explicit name; other threads (the store's background thread)
     // are known by their OS thread name
     let name = match TNAME.with(|t| t.borrow().clone()) {
